@@ -371,6 +371,9 @@ def emit_uenum(it):
     # so that the wrong default is REPORTED rather than the harness failing to build)
     doc_first = bool(it.dflt) and it.variants[0][0] == "unit"
     vs = [(("/// the default variant\n    #[default] " if doc_first else "#[default] ") if i == it.dflt else "") + v for i, v in enumerate(vs)]
+    if doc_first:
+        # ... and a conditional `default` whose condition is false on the first variant (it must be ignored)
+        vs[0] = "#[cfg_attr(any(), default)] " + vs[0]
     vdesc = ", ".join("vec![%s]" % ", ".join(desc_of(f) for f in fs) for _, fs in it.variants)
     read_arms = walk_arms = apply_arms = probe_arms = emp_arms = ""
     for i, (form, fs) in enumerate(it.variants):
@@ -576,6 +579,14 @@ def catalog(thorough):
     for tag in (["u8", "u16", "u32"] if thorough else ["u8"]):
         for combo in itertools.product(KINDS, repeat=2):
             add(get(UEnum, tag, [("unit", []), ("tuple", list(combo) + [V88]), ("tuple", [combo[1]])], 0, False, None, True))
+    # an enum variant whose tail (behind sized fields) is a FlexVec of unsized items / another unsized enum / an unsized
+    # struct ending in a FlexVec: the size of such a tail is NOT determined by its first MIN_SIZE bytes
+    add(get(UEnum, "u8", [("unit", []), ("tuple", [U16, Flex(V88, U8)])], 0))
+    add(get(UEnum, "u16", [("unit", []), ("tuple", [U8, W_pad]), ("tuple", [U32])], 0))
+    add(get(UEnum, "u8", [("unit", []), ("tuple", [U8, get(UStruct, [U16, Flex(V88, U8)])])], 0))
+    # empty tuple and empty struct-like variants
+    add(get(UEnum, "u16", [("unit", []), ("tuple", []), ("named", []), ("tuple", [U8, U32, Vec(U8, U16)])], 0))
+    add(get(UEnum, "u8", [("tuple", []), ("tuple", [V88])], None))
     # #[default] on a non-first variant behind a doc comment, the first variant being a unit variant as well
     add(get(UEnum, "u8", [("unit", []), ("tuple", [U16]), ("unit", [])], 2)); add(get(UEnum, "u16", [("unit", []), ("tuple", [V88]), ("tuple", [U32]), ("unit", [])], 3))
     # a zero-sized but ALIGNED field in the middle of a field list (every statement of the layout rule must pad for it)
